@@ -2,6 +2,7 @@
 import traceback
 
 from .. import irsan, oracles, rewrite
+from .. import gen_rewrite
 from . import rwbase
 
 PROP = "C05"
@@ -36,7 +37,7 @@ MAXK = 8
 
 
 def gen_case(rng, tier, index):
-    case = rwbase.gen_case(rng, tier, index)
+    case = gen_rewrite.generate(rng, tier, align_lines=True)
     if rng.random() < 0.2:
         from . import c06
         case["newfuncs"] = [c06.new_function(rng, case, k)
@@ -108,7 +109,28 @@ def zero_block_context(case, r, block):
         src = instr0.get((si, pos))
         if src is not None and src.uid in alive:
             return ""
-    return ":reason-removed-by-another-edit" if had else ""
+    if had:
+        return ":reason-removed-by-another-edit"
+    # (c) the block was the return site of a call (return edges are incoming
+    # control flow) whose callee lost its last return later in the rewrite
+    try:
+        lst.layout()
+        labels = lst.label_positions()
+        edges, _, instr_at = irbuild.expected_edges(lst, labels)
+        here = {labels[n][1:] for n in names
+                if n in labels and labels[n][0] == "pos"}
+        rets = {t.fn for t in instr_at.values() if t.kind == "ret"}
+        for (si, t, site, tgt) in irbuild.expected_edges.calls:
+            if tgt[0] != "pos":
+                continue
+            callee = instr_at.get((tgt[1], tgt[2]))
+            end = (si, t.pos + t.size)
+            if end in here and callee is not None and \
+                    callee.fn is not None and callee.fn not in rets:
+                return ":reason-removed-by-another-edit"
+    except Exception:  # noqa
+        pass
+    return ""
 
 
 def run_case(case):
